@@ -95,12 +95,7 @@ func (is *idleSweep) checkIdleConnections() {
 	idleConnections := make([]*Connection, 0, 10)
 	is.ch.mutable.RLock()
 	for _, conn := range is.ch.mutable.conns {
-		lastActivityTime := conn.getLastActivityReadTime()
-		if sendActivityTime := conn.getLastActivityWriteTime(); lastActivityTime.Before(sendActivityTime) {
-			lastActivityTime = sendActivityTime
-		}
-
-		if idleTime := now.Sub(lastActivityTime); idleTime >= is.maxIdleTime {
+		if is.isIdle(conn, now) {
 			idleConnections = append(idleConnections, conn)
 		}
 	}
@@ -119,10 +114,34 @@ func (is *idleSweep) checkIdleConnections() {
 			continue
 		}
 
+		// The connection may have carried a call since it was collected above (a
+		// pending call got its response, or a call came and went while other idle
+		// connections were being closed), in which case it is not idle any more.
+		if !is.isIdle(conn, now) {
+			continue
+		}
+
 		conn.close(
 			LogField{"reason", "Idle connection closed"},
 			LogField{"lastActivityTimeRead", conn.getLastActivityReadTime()},
 			LogField{"lastActivityTimeWrite", conn.getLastActivityWriteTime()},
 		)
 	}
+}
+
+// isIdle returns whether the connection has neither read nor written a call
+// frame for at least the maximum idle time before now.
+func (is *idleSweep) isIdle(conn *Connection, now time.Time) bool {
+	return now.Sub(lastActivityTime(conn)) >= is.maxIdleTime
+}
+
+// lastActivityTime returns the later of the connection's last read and last
+// write activity.
+func lastActivityTime(conn *Connection) time.Time {
+	lastActivity := conn.getLastActivityReadTime()
+	sendActivity := conn.getLastActivityWriteTime()
+	if lastActivity.Before(sendActivity) {
+		lastActivity = sendActivity
+	}
+	return lastActivity
 }
